@@ -36,7 +36,7 @@ pub open spec fn lex_lt(a: Seq<u8>, b: Seq<u8>) -> bool
     else { lex_lt(a.subrange(1, a.len() as int), b.subrange(1, b.len() as int)) }
 }
 pub open spec fn lex_cmp(a: Seq<u8>, b: Seq<u8>) -> Ordering {
-    if a == b { Ordering::Equal } else if lex_lt(a, b) { Ordering::Less } else { Ordering::Greater }
+    if lex_lt(a, b) { Ordering::Less } else if lex_lt(b, a) { Ordering::Greater } else { Ordering::Equal }
 }
 
 #[derive(Clone, Copy)]
